@@ -156,6 +156,10 @@ Proof.
       constructor; cbn [st_heap st_stmts st_handles st_outs]; auto.
       * eapply hinv_clone; eauto.
       * rewrite app_length. cbn. apply hd_push; [|lia]. eapply hd_mono; eauto. lia.
+    + destruct (stmt_clone (get_stmt (st_stmts st) (fst (nth p (st_handles st) (0, 1)))) (st_heap st)) as [[c h1] w1] eqn:EC.
+      constructor; cbn [st_heap st_stmts st_handles st_outs]; auto.
+      * eapply hinv_clone; eauto.
+      * rewrite app_length. cbn. apply hd_push; [|lia]. eapply hd_mono; eauto. lia.
   - (* a finisher *)
     destruct (get_instance (st_stmts st) (nth p (st_handles st) (0, 1)) (st_heap st)) as [[[sts1 i] h1] w1] eqn:EG.
     destruct (get_instance_inv _ _ _ _ _ _ _ Hi (Lhd p) EG) as (Hi1 & Li & Ll).
